@@ -18,6 +18,9 @@ import Barril.Gen.ThmLegfixSimple
 import Barril.Gen.ThmLegderPosc
 import Barril.Gen.ThmLegderNocat
 import Barril.Gen.ThmLegderSimple
+import Barril.Gen.ThmWfPosc
+import Barril.Gen.ThmWfNocat
+import Barril.Gen.ThmWfSimple
 
 namespace Barril
 open Barril.Gen
@@ -273,6 +276,109 @@ theorem createCopy_legacy {db : Db} {l c : Sym} {r : UnitRow} (h : db.Alias l c 
   rw [getValue_legacy h hU hql hqc x]
   simp only [e, ↓reduceIte, obtainQuantity_legacy_cat h q.cat]
 
+/-! ## value objects created without a value, list copies, unit names -/
+
+/-- reading a value of ANY quantity the database can build (the stored unit is always a table
+symbol) in the legacy spelling gives what the current spelling gives — also when the quantity's own
+unit is the aliased one (same-unit shortcut on one side, `from ∘ to` of the one row on the other) -/
+theorem getValue_legacy_of_quantity {db : Db} (hwf : ∀ w ∈ db.units, w.WF) {l c : Sym} {r : UnitRow}
+    (h : db.Alias l c r) (hU : r.qtype ≠ unknownQType) {cat d : Sym} {q : Simple}
+    (hq : db.newQuantity cat d = .ok q) (x : Rat) :
+    db.getValue q x l = db.getValue q x c := by
+  obtain ⟨ci, r', hcat, hqc, hsym, hg⟩ := Db.newQuantity_ok_inv' hq
+  have hql : q.unit ≠ l := by
+    intro e; rw [e] at hsym; exact hsym h.notSym
+  by_cases hqc' : q.unit = c
+  · have hw := hwf r' (Db.getInfo_mem hg)
+    have e1 : (q.unit == l) = false := by simpa using hql
+    have e2 : (q.unit == c) = true := by simpa using hqc'
+    unfold Db.getValue
+    simp only [e1, e2, Bool.false_eq_true, ↓reduceIte, hqc, hcat,
+      Db.getInfo_alias h ci.qtype (Or.inr hU)]
+    rw [← hqc', hg]
+    simp only
+    rw [convRows_eq hw hw, convVal_self hw]
+  · exact getValue_legacy h hU hql hqc' x
+
+/-- `_GetDefaultValue(category_info, legacy)` = `_GetDefaultValue(category_info, current)`: the
+default value of the category converted to the unit -/
+theorem defaultValueIn_legacy {db : Db} (hwf : ∀ w ∈ db.units, w.WF) {l c : Sym} {r : UnitRow}
+    (h : db.Alias l c r) (hU : r.qtype ≠ unknownQType) (ci : CatRow) :
+    db.defaultValueIn ci (some l) = db.defaultValueIn ci (some c) := by
+  unfold Db.defaultValueIn
+  cases hq : db.newQuantity ci.name ci.defaultUnit with
+  | error e => rfl
+  | ok q => exact getValue_legacy_of_quantity hwf h hU hq ci.defaultValue
+
+/-- **value-less construction, any value class**: if the subclass' default value does not tell the
+two spellings apart, the object built from the legacy spelling is the object built from the current
+one (errors included) -/
+theorem createValueless_legacy {α : Type} {db : Db} {l c : Sym} {r : UnitRow} (h : db.Alias l c r)
+    (dv : CatRow → Option Sym → Except ErrKind α) (hdv : ∀ ci, dv ci (some l) = dv ci (some c))
+    (cat : Sym) : db.createValueless dv cat (some l) = db.createValueless dv cat (some c) := by
+  unfold Db.createValueless
+  cases db.catByName cat with
+  | none => rfl
+  | some ci => simp only [hdv ci, obtainQuantity_legacy_cat h cat]
+
+/-- **`Scalar(category, unit=legacy)` = `Scalar(category, unit=current)`** (also `FractionScalar`):
+same quantity and the same number `convert (defaultUnit) u (defaultValue)`, for every category —
+whatever its default value, default unit and limits —, rejected ones included -/
+theorem createDefault_legacy {db : Db} (hwf : ∀ w ∈ db.units, w.WF) {l c : Sym} {r : UnitRow}
+    (h : db.Alias l c r) (hU : r.qtype ≠ unknownQType) (cat : Sym) :
+    db.createDefault cat (some l) = db.createDefault cat (some c) :=
+  createValueless_legacy h db.defaultValueIn (defaultValueIn_legacy hwf h hU) cat
+
+/-- `Array(category, unit=legacy)` / `FixedArray(n, category, unit=legacy)` equal the objects built
+with the current spelling -/
+theorem createDefaultList_legacy {db : Db} {l c : Sym} {r : UnitRow} (h : db.Alias l c r) (n : Nat)
+    (cat : Sym) : db.createDefaultList n cat (some l) = db.createDefaultList n cat (some c) :=
+  createValueless_legacy h (constDefault n) (fun _ => rfl) cat
+
+/-- the number a value-less scalar carries IS the category default converted from the default unit:
+whenever the object exists, its value is `getValue` of the default quantity (so it cannot be the
+unconverted default unless the conversion says so) -/
+theorem createDefault_value {db : Db} {cat u : Sym} {o : Simple × Rat}
+    (ho : db.createDefault cat (some u) = .ok o) :
+    ∃ ci q, db.catByName cat = some ci ∧ db.newQuantity ci.name ci.defaultUnit = .ok q
+      ∧ db.getValue q ci.defaultValue u = .ok o.2 ∧ db.obtainQuantity u (some cat) = .ok o.1 := by
+  unfold Db.createDefault Db.createValueless at ho
+  cases hc : db.catByName cat with
+  | none => rw [hc] at ho; cases ho
+  | some ci =>
+    rw [hc] at ho
+    simp only at ho
+    cases hd : db.defaultValueIn ci (some u) with
+    | error e => rw [hd] at ho; cases ho
+    | ok v =>
+      rw [hd] at ho
+      simp only at ho
+      cases hq : db.obtainQuantity u (some cat) with
+      | error e => rw [hq] at ho; cases ho
+      | ok q' =>
+        rw [hq] at ho
+        cases ho
+        unfold Db.defaultValueIn at hd
+        cases hn : db.newQuantity ci.name ci.defaultUnit with
+        | error e => rw [hn] at hd; cases hd
+        | ok q => rw [hn] at hd; exact ⟨ci, q, rfl, hn, hd, rfl⟩
+
+/-- `Array.CreateCopy(unit=legacy)` = `Array.CreateCopy(unit=current)` for value lists of any
+length -/
+theorem createCopyList_legacy {db : Db} {l c : Sym} {r : UnitRow} (h : db.Alias l c r)
+    (hU : r.qtype ≠ unknownQType) {q : Simple} (hcat : q.cat ≠ 0) (hql : q.unit ≠ l) (hqc : q.unit ≠ c)
+    (xs : List Rat) : db.createCopyList q xs l = db.createCopyList q xs c := by
+  unfold Db.createCopyList
+  have e : (q.cat != 0) = true := by simpa using hcat
+  rw [getValues_legacy h hU hql hqc xs]
+  simp only [e, ↓reduceIte, obtainQuantity_legacy_cat h q.cat]
+
+/-- `GetUnitName(qt, legacy)` = `GetUnitName(qt, current)` -/
+theorem getUnitName_legacy {db : Db} {l c : Sym} {r : UnitRow} (h : db.Alias l c r) (qt : Sym) :
+    db.getUnitName qt l = db.getUnitName qt c := by
+  unfold Db.getUnitName
+  rw [Db.getInfo_alias h qt (Or.inl rfl)]
+
 /-! ## category registration -/
 
 /-- `AddCategory(…, valid_units, default_unit)`: writing any of the units the legacy way registers
@@ -297,6 +403,36 @@ theorem addCategory_legacy (db : Db) (name qt : Sym) (valid : Option (List Sym))
     | some d => simp only [Option.map_some, Db.chooseDefault, hd d rfl]
   unfold Db.addCategory
   simp only [e1, e2]
+
+/-- `AddCategory` with default value and limits: the unit arguments are rewritten exactly as
+without them, so legacy spellings register the same category -/
+theorem addCategoryFull_legacy (db : Db) (name qt : Sym) (valid : Option (List Sym)) (dflt : Option Sym)
+    (caption : Sym) (override : Bool) (dv mn mx : Option Rat) (minx maxx : Bool)
+    (hv : ∀ vs, valid = some vs → ∀ v ∈ vs,
+      fixLegacy db.legacy (fixLegacy db.legacy v) = fixLegacy db.legacy v)
+    (hd : ∀ d, dflt = some d → fixLegacy db.legacy (fixLegacy db.legacy d) = fixLegacy db.legacy d) :
+    db.addCategoryFull name qt valid dflt caption override dv mn mx minx maxx =
+      db.addCategoryFull name qt (valid.map (List.map (fixLegacy db.legacy))) (dflt.map (fixLegacy db.legacy))
+        caption override dv mn mx minx maxx := by
+  have e1 : db.fixValidOpt qt (valid.map (List.map (fixLegacy db.legacy))) = db.fixValidOpt qt valid := by
+    cases valid with
+    | none => rfl
+    | some vs => simp only [Option.map_some, Db.fixValidOpt, Db.fixValid_map_fix qt vs (hv vs rfl)]
+  have e2 : ∀ v', db.chooseDefault qt v' (dflt.map (fixLegacy db.legacy)) = db.chooseDefault qt v' dflt := by
+    intro v'
+    cases dflt with
+    | none => rfl
+    | some d => simp only [Option.map_some, Db.chooseDefault, hd d rfl]
+  unfold Db.addCategoryFull
+  simp only [e1, e2]
+
+/-- without default value and limits the full registration is the one modelled before -/
+theorem addCategoryFull_plain (db : Db) (name qt : Sym) (valid : Option (List Sym)) (dflt : Option Sym)
+    (caption : Sym) (override : Bool) :
+    db.addCategoryFull name qt valid dflt caption override none none none false false =
+      db.addCategory name qt valid dflt caption override := by
+  unfold Db.addCategoryFull Db.addCategory
+  simp only [limitsCrossed, chooseDefaultValue, Bool.false_eq_true, ↓reduceIte, Bool.or_self]
 
 /-- the registered category stores current symbols only -/
 theorem fixValid_stores_fixed {db : Db} {qt : Sym} :
@@ -399,6 +535,73 @@ theorem simple_legacy_exact_alias : ∀ p ∈ simpleDb.derive, simpleDb.ExactAli
   intro p hp
   obtain ⟨r, h, hU⟩ := simple_derived_alias p hp
   exact exactAlias_of_alias h hU
+
+/-! ## value-less construction, list copies and unit names: all at once, also after a registration -/
+
+/-- the entries added to "exact alias": value-less `Scalar`/`FractionScalar` (default value of the
+category converted to the unit), value-less `Array`/`FixedArray` of any dimension, `Array.CreateCopy`
+for lists of any length, `GetUnitName` -/
+def Db.ExactAliasValueless (db : Db) (l c : Sym) : Prop :=
+    (∀ cat, db.createDefault cat (some l) = db.createDefault cat (some c))
+    ∧ (∀ n cat, db.createDefaultList n cat (some l) = db.createDefaultList n cat (some c))
+    ∧ (∀ (q : Simple) x, (∃ cat d, db.newQuantity cat d = .ok q) → db.getValue q x l = db.getValue q x c)
+    ∧ (∀ (q : Simple) xs, q.cat ≠ 0 → q.unit ≠ l → q.unit ≠ c →
+        db.createCopyList q xs l = db.createCopyList q xs c)
+    ∧ (∀ qt, db.getUnitName qt l = db.getUnitName qt c)
+
+theorem exactAliasValueless_of_alias {db : Db} (hwf : ∀ w ∈ db.units, w.WF) {l c : Sym} {r : UnitRow}
+    (h : db.Alias l c r) (hU : r.qtype ≠ unknownQType) : db.ExactAliasValueless l c :=
+  ⟨createDefault_legacy hwf h hU, createDefaultList_legacy h,
+    fun _ x ⟨_, _, hq⟩ => getValue_legacy_of_quantity hwf h hU hq x,
+    fun _ xs hc h1 h2 => createCopyList_legacy h hU hc h1 h2 xs, getUnitName_legacy h⟩
+
+/-- **categories registered by the user** (`AddCategory` with any default value, default unit, valid
+units, limits): after a successful registration every alias pair is still an exact alias, in
+particular in the new category, whose non-zero default value is converted for the legacy spelling
+exactly as for the current one.  (Side condition: the new category is not named like the unit's
+quantity type while belonging to another type.) -/
+theorem registered_exact_alias {db db' : Db} (hwf : ∀ w ∈ db.units, w.WF) {l c : Sym} {r : UnitRow}
+    (h : db.Alias l c r) (hU : r.qtype ≠ unknownQType) {name qt : Sym} {valid : Option (List Sym)}
+    {dflt : Option Sym} {caption : Sym} {override : Bool} {dv mn mx : Option Rat} {minx maxx : Bool}
+    (hreg : db.addCategoryFull name qt valid dflt caption override dv mn mx minx maxx = .ok db')
+    (hname : name ≠ r.qtype ∨ qt = r.qtype) :
+    db'.ExactAlias l c ∧ db'.ExactAliasValueless l c := by
+  obtain ⟨row, hn, hq, hdb⟩ := Db.addCategoryFull_ok_inv hreg
+  have h' : db'.Alias l c r := h.after_register hdb (by rw [hn, hq]; exact hname)
+  have hwf' : ∀ w ∈ db'.units, w.WF := by subst hdb; exact hwf
+  exact ⟨exactAlias_of_alias h' hU, exactAliasValueless_of_alias hwf' h' hU⟩
+
+theorem posc_rows_wf : ∀ w ∈ poscDb.units, w.WF :=
+  fun w hw => (UnitRow.wf_iff w).mp (List.all_eq_true.mp poscUnits_all_wf w hw)
+theorem nocat_rows_wf : ∀ w ∈ nocatDb.units, w.WF :=
+  fun w hw => (UnitRow.wf_iff w).mp (List.all_eq_true.mp nocatUnits_all_wf w hw)
+theorem simple_rows_wf : ∀ w ∈ simpleDb.units, w.WF :=
+  fun w hw => (UnitRow.wf_iff w).mp (List.all_eq_true.mp simpleUnits_all_wf w hw)
+
+/-- **C16 for value-less objects on the shipped databases**, before and after any registration -/
+theorem posc_legacy_valueless : ∀ p ∈ poscDb.derive, poscDb.ExactAliasValueless p.1 p.2 := by
+  intro p hp
+  obtain ⟨r, h, hU⟩ := posc_derived_alias p hp
+  exact exactAliasValueless_of_alias posc_rows_wf h hU
+theorem nocat_legacy_valueless : ∀ p ∈ nocatDb.derive, nocatDb.ExactAliasValueless p.1 p.2 := by
+  intro p hp
+  obtain ⟨r, h, hU⟩ := nocat_derived_alias p hp
+  exact exactAliasValueless_of_alias nocat_rows_wf h hU
+theorem simple_legacy_valueless : ∀ p ∈ simpleDb.derive, simpleDb.ExactAliasValueless p.1 p.2 := by
+  intro p hp
+  obtain ⟨r, h, hU⟩ := simple_derived_alias p hp
+  exact exactAliasValueless_of_alias simple_rows_wf h hU
+
+/-- every derived spelling of the default database stays an exact alias in every category a user
+registers under a name that is not a quantity type of the table -/
+theorem posc_registered_exact_alias {db' : Db} {name qt : Sym} {valid : Option (List Sym)}
+    {dflt : Option Sym} {caption : Sym} {override : Bool} {dv mn mx : Option Rat} {minx maxx : Bool}
+    (hreg : poscDb.addCategoryFull name qt valid dflt caption override dv mn mx minx maxx = .ok db')
+    (hname : ∀ r ∈ poscDb.units, name ≠ r.qtype) :
+    ∀ p ∈ poscDb.derive, db'.ExactAlias p.1 p.2 ∧ db'.ExactAliasValueless p.1 p.2 := by
+  intro p hp
+  obtain ⟨r, h, hU⟩ := posc_derived_alias p hp
+  exact registered_exact_alias posc_rows_wf h hU hreg (Or.inl (hname r h.mem))
 
 /-! ## non-vacuity -/
 
